@@ -1954,3 +1954,76 @@ def r86(ctx: Ctx) -> RuleReport:
             else:
                 rep.ok(key, fi.loc(), ', '.join(sorted(set(sites.values()))))
     return rep
+
+
+# ---------------------------------------------------------------------------------------------
+@rule('R88', 'what a constructor is given reaches the object (self.x derives from the parameter x), and metadata travels with the graph / tree through every conversion')
+def r88(ctx: Ctx) -> RuleReport:
+    from ..cfg import reaching_defs
+    from ..resolve import expand
+    rep = RuleReport('R88', r88.title, floor=8)
+    # (a) constructors of Graph and Tree
+    for mod, cls in (('penman.graph', 'Graph'), ('penman.tree', 'Tree')):
+        init = ctx.repo.cls(mod, cls).find_method('__init__')
+        cfg = CFG(init.node)
+        a = init.node.args
+        params = [x.arg for x in a.posonlyargs + a.args + a.kwonlyargs]
+        rd = reaching_defs(cfg, params)
+        pm = ctx.repo.parent_map(init.node)
+        for n in walk_local(init.node):
+            if not (isinstance(n, ast.Assign) and isinstance(n.targets[0], ast.Attribute) and norm(n.targets[0].value) == 'self'):
+                continue
+            attr = n.targets[0].attr.lstrip('_')
+            if attr not in params:
+                continue
+            key = f'{init.fq}: self.{n.targets[0].attr} derives from the parameter {attr}'
+            nid = cfg.node_of(n)
+            uses = [x for x in ast.walk(n.value) if isinstance(x, ast.Name) and x.id == attr]
+            if not uses:
+                rep.violation(key, init.loc(n), f'`{norm(n)[:60]}` does not use the parameter `{attr}`: whatever the caller passes is ignored')
+                continue
+            from_param = cfg.entry in rd.get(nid, {}).get(attr, frozenset())
+            if from_param:
+                rep.ok(key, init.loc(n))
+            else:
+                defs = sorted(rd.get(nid, {}).get(attr, ()))
+                rep.violation(key, init.loc(n), f'on every path to `{norm(n)[:50]}` the parameter `{attr}` has been overwritten '
+                              f'({"; ".join(norm(cfg.nodes[d].ast)[:40] for d in defs[:2])}): the value passed by the caller never reaches the object '
+                              f'(decode loses the metadata comments / the markers / the top it has just read)')
+    # (b) conversions: a Graph or Tree built from a graph / tree parameter gets that parameter's metadata
+    for fi in ctx.repo.all_functions():
+        if fi.cls is not None and fi.cls.name in ('Graph', 'Tree'):
+            continue
+        holders = []
+        for p in fi.positional:
+            cls_ = ctx.cg.class_of(ast.Name(id=p, ctx=ast.Load()), fi, fi.module)
+            if 'penman.graph:Graph' in cls_ or 'penman.tree:Tree' in cls_:
+                holders.append(p)
+        if not holders:
+            continue
+        for call, ts in ctx.cg.calls_in(fi):
+            tcls = [t.cls for t in ts if t.kind == 'class' and t.cls.fq in ('penman.graph:Graph', 'penman.tree:Tree')]
+            if not tcls:
+                continue
+            init = tcls[0].find_method('__init__')
+            pos = init.positional[1:]
+            md = next((k.value for k in call.keywords if k.arg == 'metadata'), None)
+            if md is None and 'metadata' in pos and pos.index('metadata') < len(call.args):
+                md = call.args[pos.index('metadata')]
+            # only objects built from the holder's content count (Graph(new_triples, top=g.top ...), Tree(node ...) after reading g / t)
+            if call.args and isinstance(call.args[0], ast.Name) and call.args[0].id in holders:
+                continue                        # Tree(tree): wraps a raw node that is not a Tree yet
+            if fi.qualname in ('_decode', '_iterdecode'):
+                continue
+            key = f'{fi.module.name}:{fi.qualname}: {norm(call)[:60]} carries the metadata of its source'
+            if any(k.arg is None for k in call.keywords):
+                rep.undecided(key, fi.loc(call), '**kwargs')
+                continue
+            if md is None:
+                rep.violation(key, fi.loc(call), f'the new {tcls[0].name} is built from `{holders[0]}` without metadata=: the comment lines of the graph (# ::id, # ::snt ...) are '
+                              f'dropped by this step, so they are missing from the output although the text had them')
+                continue
+            mdx = expand(ctx, fi, md, call)
+            good = isinstance(mdx, ast.Attribute) and mdx.attr == 'metadata' and isinstance(mdx.value, ast.Name) and mdx.value.id in holders
+            rep.add(key, fi.loc(call), 'ok' if good else 'undecided', norm(md))
+    return rep
